@@ -32,6 +32,10 @@ function plan (seed, run, tier) {
   const chain = rng.chance(1, 2)
   const cfgs = [cfgOf(chain, rng.chance(1, 3))]
   if (rng.chance(1, 3)) cfgs.push(cfgOf(chain, !cfgs[0].comments))
+  // sometimes the second instance has the other chaining setting, and is only constructed when first used
+  if (cfgs.length === 2 && rng.chance(1, 3)) cfgs[1].chainSourceMap = !chain
+  const lateRewriter = cfgs.length === 2 && rng.chance(1, 2)
+  const anyChain = cfgs.some(c => c.chainSourceMap)
   // the F6 scenario (message line starting with `at`) is confined to a quarter of the runs
   const allowMsgAt = run % 4 === 3
   const files = []
@@ -42,7 +46,7 @@ function plan (seed, run, tier) {
     const versions = []
     for (let vi = 0; vi < nVer; vi++) {
       const kind = ['mod', 'mod', 'mod', 'mod', 'plain', 'plain', 'syntaxerr'][rng.below(7)]
-      const omap = chain && rng.chance(2, 3) ? rng.pick(['inline', 'external']) : null
+      const omap = anyChain && rng.chance(2, 3) ? rng.pick(['inline', 'external']) : null
       versions.push(genVersion(rng, fi, vi, kind, { file, omap, allowMsgAt, lookalikeLine: rng.chance(1, 5) }))
     }
     files.push({ path: file, versions })
@@ -100,7 +104,7 @@ function plan (seed, run, tier) {
   }
   // the rewriter's logger may be on for the whole run (process-wide level on the Rust side)
   const logLevel = rng.pick(['off', 'off', 'off', 'debug', 'trace'])
-  return { cfgs, files, lookups, ops, logLevel, tag: allowMsgAt ? 'msg-at-allowed' : '' }
+  return { cfgs, files, lookups, ops, logLevel, lateRewriter, tag: allowMsgAt ? 'msg-at-allowed' : '' }
 }
 
 function fsFor (plan, file, code) {
@@ -185,7 +189,8 @@ function execute (plan, table) {
   // a user handler that (like many real ones) assumes an Error: it throws a TypeError on other objects
   let fragileInstalled = false
   const mkFragile = (tag) => { const base = mkUser(tag); return function fragilePST (err, callSites) { err.message.trim(); return base(err, callSites) } }
-  const rewriters = plan.cfgs.map(c => new pkg.Rewriter(c))
+  // the second instance may be constructed only when it is first used (after the first one has rewritten files)
+  const rewriters = plan.cfgs.map((c, i) => (plan.lateRewriter && i > 0) ? null : new pkg.Rewriter(c))
   const nonCache = new pkg.NonCacheRewriter(plan.cfgs[0])
   const L = {} // file -> {id, v, status, content, rw}
   const everModified = {} // file -> true once a modified rewrite was cached
@@ -322,6 +327,7 @@ function execute (plan, table) {
         const f = plan.files[op.f]; const ver = f && f.versions[op.v]
         if (!f || !ver) { seq++; continue }
         const cache = op.op === 'Rewrite'
+        if (cache && plan.lateRewriter && plan.cfgs[op.rw] && !rewriters[op.rw]) { rewriters[op.rw] = new pkg.Rewriter(plan.cfgs[op.rw]); st('probe:rewriter-constructed-after-files-were-rewritten', rewriteId > 0 ? 1 : 0) }
         const rw = cache ? rewriters[op.rw] || rewriters[0] : nonCache
         const rwIdx = cache ? (rewriters[op.rw] ? op.rw : 0) : 0
         let resp = null; let status = 'failed'
